@@ -125,7 +125,9 @@ static int has_word(const char *list, const char *w) {
     return 0;
 }
 static void get_classes(const ctx_t *c, classes_t *k) {
-    const char *ex = ctx_arg(c, "exclude", ""), *in = ctx_arg(c, "include", "");
+    /* exclude= / include= arguments, else the environment (so that `check run` and `check replay` agree) */
+    const char *ex = ctx_arg(c, "exclude", getenv("C16_EXCLUDE") ? getenv("C16_EXCLUDE") : "");
+    const char *in = ctx_arg(c, "include", getenv("C16_INCLUDE") ? getenv("C16_INCLUDE") : "");
     k->symnodiag = !has_word(ex, "symnodiag"); k->pcomma = !has_word(ex, "pcomma"); k->zmm = !has_word(ex, "zmm"); k->mmlongtok = !has_word(ex, "mmlongtok");
     k->pscaleF = has_word(in, "pscaleF"); k->noE = has_word(in, "noE"); k->mmcompat = has_word(in, "mmcompat");
 }
@@ -456,7 +458,7 @@ void fam_readers_bad(ctx_t *c) {
         rng_t r; case_rng(c, i, &r); char ty = pick_ty(c, i);
         cmat_t M; gen_case(&r, c, i, ty, &kl, !unsafe, &M);
         int compat = 0;
-        if (M.fmt == RD_MM && M.cplx && has_word(ctx_arg(c, "include", ""), "mmcompat")) compat = 1;   /* the header the pinned [cz]readMM accept */
+        { classes_t k2; get_classes(c, &k2); if (M.fmt == RD_MM && M.cplx && k2.mmcompat) compat = 1; }   /* the header the pinned [cz]readMM accept */
         sb_t s = { 0 };
         switch (M.fmt) { case RD_HB: case RD_RB: write_hbrb(&r, &M, &s); break; case RD_MM: write_mm(&r, &M, &s, compat, 0); break; default: write_tri(&r, &M, &s); }
         size_t d0 = data_start(&M, s.p, s.n); if (d0 >= s.n) d0 = s.n ? s.n - 1 : 0;
